@@ -8,6 +8,27 @@ import sys
 ROOT = os.path.dirname(os.path.dirname(os.path.abspath(__file__)))
 
 CLAIMED = {
+    "C03": dict(
+        category="model_checking",
+        text="Update.tla defines the effect of the six update forms on the quad set and catalog (WHERE once on the pre-state via Sparql.tla, "
+             "deletions before insertions, fresh blank nodes per solution occurrence, counts = actual change, rejected => unchanged). Seeded "
+             "histories are executed through every update entry point of the real engine; TLC judges each request from the recorded lexical "
+             "dataset before and after it, matching allocated blank nodes by a bijection.",
+        design_ref="DESIGN.md section 5 (C03)",
+        note="Trusted: TLC, Python generator/printer and lexical kind tables. Each request is judged against the recorded pre-state. "
+             "No exhaustive state space (the L1 menu of DESIGN.md was not built): evidence is trace validation of sampled histories.",
+        technique="TLA+ specification of update semantics evaluated by TLC as oracle (trace validation of recorded request histories)",
+    ),
+    "C17": dict(
+        category="model_checking",
+        text="UpdateTrace.tla states the frame conditions of the string entry points (query-only entry points never change quads or catalog "
+             "and refuse update syntax; refused requests change nothing; no request panics). Seeded histories interleave SELECTs, all update "
+             "forms and aliases on query entry points, structurally mutated requests with multi-byte text and garbage over 7 entry points; "
+             "TLC judges every request from the recorded pre/post dataset.",
+        design_ref="DESIGN.md section 5 (C17)",
+        note="Covers the generated request families, not arbitrary byte strings (DESIGN.md section 6). HTTP framing is always well formed.",
+        technique="TLA+ frame conditions checked by TLC on recorded request histories (trace validation) with structured fault injection",
+    ),
     "C01": dict(
         category="model_checking",
         text="Sparql.tla is a denotational TLA+ definition of the supported SELECT fragment (bag semantics, dataset views, group-scoped FILTER, "
